@@ -24,7 +24,20 @@ from sa.model import AnalysisError  # noqa: E402
 LEVELS = {"C15": "proof"}
 
 
+def selfcheck():
+    """setup_cmd: nothing to build; verify the interpreter can load the engine and parse the repository"""
+    from sa.model import Program
+    from sa.bits import selftest
+    n = selftest(0, 300)
+    p = Program("/repo")
+    print("selfcheck ok: python %s, %d files parsed, %d functions, %d bit-domain cases" % (
+        sys.version.split()[0], len(p.files), len(p.funcs), n))
+    return 0
+
+
 def main():
+    if len(sys.argv) > 1 and sys.argv[1] == "--selfcheck":
+        return selfcheck()
     ap = argparse.ArgumentParser()
     ap.add_argument("prop")
     ap.add_argument("--tier", default=os.environ.get("VERIF_TIER", "quick"), choices=["quick", "thorough"])
